@@ -33,15 +33,16 @@ Case vf_generate() {
     const ga::PSpec *p = c.spec.find(target == 0 ? c.spec.root : c.spec.sub, field);
     if (!p) return;
     ga::Set s; s.target = target; s.field = field; s.v = ga::gen_val(field, *p); s.by_symbol = vf::coin();
-    if (ga::kind_of(field) == ga::K_AINT || ga::kind_of(field) == ga::K_AFLOAT) s.idx = vf::pickn(4);
+    if (ga::kind_of(field) == ga::K_AINT || ga::kind_of(field) == ga::K_AFLOAT) s.idx = vf::pickn(ga::kind_of(field) == ga::K_AINT ? 8 : 4);
     c.hist.insert(c.hist.begin() + vf::pickn((int)c.hist.size() + 1), s);
   };
   if (vf::chance(70)) add(0, ga::PRESET);
   if (vf::chance(50)) add(0, ga::RI);
   if (vf::chance(50)) add(0, ga::RJ);
   if (vf::chance(50)) add(0, ga::EN);
+  if (vf::chance(50)) add(0, ga::RT);
   // dependants set after their masters, so that the saved state has both at non-default values
-  for (auto &p : c.spec.root) if ((p.depends || p.depends_on >= 0) && vf::chance(70)) { ga::Set s; s.target = 0; s.field = p.field; s.v = ga::gen_val(p.field, p); if (ga::kind_of(p.field) == ga::K_AINT || ga::kind_of(p.field) == ga::K_AFLOAT) s.idx = vf::pickn(4); c.hist.push_back(s); }
+  for (auto &p : c.spec.root) if ((p.depends || p.depends_on >= 0) && vf::chance(70)) { ga::Set s; s.target = 0; s.field = p.field; s.v = ga::gen_val(p.field, p); if (ga::kind_of(p.field) == ga::K_AINT || ga::kind_of(p.field) == ga::K_AFLOAT) s.idx = vf::pickn(ga::kind_of(p.field) == ga::K_AINT ? 8 : 4); c.hist.push_back(s); }
   c.drop = vf::chance(35) ? vf::pickn(8) : -1;
   for (int i = 0; i < 64; i++) c.shuffle.push_back(vf::pickn(1000));
   return c;
@@ -76,7 +77,9 @@ std::string vf_run(const Case &c, vf::Ctx &ctx) {
   for (size_t i = 0; i < canon.size(); i++) canon[i] = i;
   ga::App base(c.spec);
   int rv0 = ga::load(base, build(canon));
-  if (rv0 != (int)msgs.size()) return "canonical order: load_from_file returns " + std::to_string(rv0) + " for " + std::to_string(msgs.size()) + " messages | file=\"" + vf::esc(build(canon)) + "\"" + D;
+  // a file that does not load at all in its original order is C12's business (e.g. its listed finding about a
+  // char parameter holding 0), not an order dependence: skipped and counted
+  if (rv0 != (int)msgs.size()) { ctx.count("skipped.file_not_loadable_in_original_order"); return ""; }
   std::string st0 = state_of(base);
   // which lines depend on which (by the generated metadata): used only to classify the case
   bool has_edge = false;
@@ -84,7 +87,7 @@ std::string vf_run(const Case &c, vf::Ctx &ctx) {
     auto has = [&](const std::string &a) { for (auto &m : msgs) if (m.compare(0, a.size(), a) == 0 && (m.size() == a.size() || m[a.size()] == ' ' || m[a.size()] == '\n')) return true; return false; };
     for (auto &p : c.spec.root) {
       if (p.depends && has("/preset") && has(std::string("/") + ga::name_of(p.field))) has_edge = true;
-      if (p.depends_on >= 0 && has(std::string("/") + ga::name_of(p.field)) && (has("/ri") || has("/preset"))) has_edge = true;
+      if (p.depends_on >= 0 && has(std::string("/") + ga::name_of(p.field)) && (has("/ri") || has("/preset") || (p.depends_on2 >= 0 && has("/rt")))) has_edge = true;
     }
     if (has("/en")) for (auto &m : msgs) if (m.compare(0, 4, "/sub") == 0 || m.compare(0, 5, "/psub") == 0) has_edge = true;
   }
